@@ -20,6 +20,14 @@ pub struct P(pub u32);
 pub struct S(pub u32);
 #[derive(Component, Serialize, Deserialize, Clone, PartialEq, Debug)]
 pub struct R(#[entities] pub Entity);
+/// A second relationship next to `ChildOf` (no forest constraint, no recursive despawn): with `Cfg::sync` both are registered
+/// for synchronized replication, so groups are the connected components of the union of both graphs.
+#[derive(Component, Serialize, Deserialize, Clone, PartialEq, Debug)]
+#[relationship(relationship_target = Owns)]
+pub struct OwnedBy(pub Entity);
+#[derive(Component, Default, Debug)]
+#[relationship_target(relationship = OwnedBy)]
+pub struct Owns(Vec<Entity>);
 /// `X` and `Y` are covered by ONE rule, `replicate_bundle::<(X, Y)>()`: replicated only while an entity has both.
 #[derive(Component, Serialize, Deserialize, Clone, PartialEq, Debug)]
 pub struct X(pub u32);
@@ -138,6 +146,9 @@ pub struct Cfg {
     /// register `replicate_bundle::<(X, Y)>()` and generate the component kinds X and Y
     #[serde(default)]
     pub bundle: bool,
+    /// register the second relationship `OwnedBy` (replicated; synchronized with `sync`) and generate `SetOwner` / `DelOwner`
+    #[serde(default)]
+    pub owners: bool,
 }
 
 impl Default for Cfg {
@@ -167,6 +178,7 @@ impl Default for Cfg {
             big_jumps: false,
             connect_all: false,
             bundle: false,
+            owners: false,
         }
     }
 }
@@ -189,6 +201,9 @@ pub enum Step {
     DelRef { slot: usize },
     SetParent { slot: usize, parent: usize },
     DelParent { slot: usize },
+    /// insert / replace the second relationship `OwnedBy(owner)` on `slot` (any owner but itself; cycles allowed)
+    SetOwner { slot: usize, owner: usize },
+    DelOwner { slot: usize },
     Vis { client: usize, slot: usize, visible: bool },
     /// several `set_visibility` calls in a row (repeated and mutually cancelling calls inside one tick window)
     VisBurst { client: usize, slot: usize, pattern: Vec<bool> },
